@@ -124,6 +124,148 @@ func runC20(c *Ctx, r *Report) {
 	}
 	r.Floor("R-C20.1", "Keystore methods with cache+store lookups", nMeth, 2)
 
+	// R-C20.5 / R-C20.6 / R-C20.7
+	r.Doc("R-C20.5", "everything put in the key cache derives from key bytes (a datastore read or the freshly generated key) — no 'not found' markers")
+	r.Doc("R-C20.6", "absence is only ever concluded from the datastore: a return not preceded by a datastore lookup is a positive answer (or an error about the cached value itself)")
+	r.Doc("R-C20.7", "key bytes are immutable: the cache never holds a mutable byte slice that the package also writes into")
+	nAddAll, mutableCached, byteWrites := 0, "", ""
+	for i := 0; i < ks.NumMethods(); i++ {
+		fn := p.ByObj[ks.Method(i)]
+		if fn == nil {
+			continue
+		}
+		for _, f := range AllFnsUnder(fn) {
+			sf := p.SSAFunc(f)
+			allInstrs(sf, false, func(ins ssa.Instruction) {
+				switch x := ins.(type) {
+				case *ssa.Call:
+					cf := calleeOf(x)
+					if isMethodOn(cf, "hashicorp/golang-lru", "Cache", "Add") && len(x.Call.Args) == 3 {
+						nAddAll++
+						v := x.Call.Args[2]
+						fromKey := false
+						for y := range backSlice(v, nil) {
+							if c2, ok := y.(*ssa.Call); ok {
+								if f2 := calleeOf(c2); f2 != nil {
+									if (f2.Pkg() != nil && f2.Pkg().Path() == "github.com/ipfs/go-datastore" && f2.Name() == "Get") || f2.Name() == "Raw" {
+										fromKey = true
+									}
+								}
+							}
+						}
+						r.Check(fromKey, "R-C20.5", r.Key("R-C20.5", f, "cache.Add", ""), x.Pos(),
+							"the cached value is an encoding of key bytes read from the datastore or just generated",
+							"a value that is not key material (e.g. a nil 'not found' marker) is put in the cache: another keystore instance over the same datastore can create the key meanwhile, and this instance keeps answering from its marker — then re-creates the key, so the same id yields a different identity")
+						// mutability of what is cached
+						if mi, ok := v.(*ssa.MakeInterface); ok {
+							if _, isSlice := mi.X.Type().Underlying().(*types.Slice); isSlice {
+								mutableCached = p.Pos(x.Pos())
+							}
+						}
+					}
+					if b, ok := x.Call.Value.(*ssa.Builtin); ok && (b.Name() == "copy" || b.Name() == "clear") && len(x.Call.Args) > 0 {
+						if sl, ok := x.Call.Args[0].Type().Underlying().(*types.Slice); ok {
+							if bt, ok := sl.Elem().Underlying().(*types.Basic); ok && bt.Kind() == types.Byte {
+								byteWrites = p.Pos(x.Pos())
+							}
+						}
+					}
+				case *ssa.Store:
+					if ia, ok := x.Addr.(*ssa.IndexAddr); ok {
+						if sl, ok := ia.X.Type().Underlying().(*types.Slice); ok {
+							if bt, ok := sl.Elem().Underlying().(*types.Basic); ok && bt.Kind() == types.Byte {
+								byteWrites = p.Pos(x.Pos())
+							}
+						}
+					}
+				}
+			})
+		}
+	}
+	// package-level functions and literals of the keystore package too (constructor callbacks)
+	for _, f := range p.Fns {
+		if f.Pkg.PkgPath != p.pkgPath("keystore") {
+			continue
+		}
+		sf := p.SSAFunc(f)
+		if sf == nil {
+			continue
+		}
+		allInstrs(sf, false, func(ins ssa.Instruction) {
+			if x, ok := ins.(*ssa.Store); ok {
+				if ia, ok := x.Addr.(*ssa.IndexAddr); ok {
+					if sl, ok := ia.X.Type().Underlying().(*types.Slice); ok {
+						if bt, ok := sl.Elem().Underlying().(*types.Basic); ok && bt.Kind() == types.Byte {
+							byteWrites = p.Pos(x.Pos())
+						}
+					}
+				}
+			}
+		})
+	}
+	r.Floor("R-C20.5", "cache insertions in the keystore", nAddAll, 2)
+	r.Check(mutableCached == "" || byteWrites == "", "R-C20.7", r.Key("R-C20.7", nil, "immutable-key-bytes", ""), token.NoPos,
+		"the cache holds immutable encodings (strings) and/or nothing in the package writes into byte slices",
+		fmt.Sprintf("the cache holds a mutable []byte (at %s) and the package writes into byte slices (at %s): a slice shared with the datastore (non-copying stores return and keep the caller's slice) is modified in place, so the persisted key changes", mutableCached, byteWrites))
+	for i := 0; i < ks.NumMethods(); i++ {
+		fn := p.ByObj[ks.Method(i)]
+		if fn == nil {
+			continue
+		}
+		sf := p.SSAFunc(fn)
+		var cacheCalls, storeCalls []*ssa.Call
+		allInstrs(sf, false, func(ins ssa.Instruction) {
+			if call, ok := ins.(*ssa.Call); ok {
+				cf := calleeOf(call)
+				if isMethodOn(cf, "hashicorp/golang-lru", "Cache", "Peek", "Get") {
+					cacheCalls = append(cacheCalls, call)
+				}
+				if cf != nil && cf.Pkg() != nil && cf.Pkg().Path() == "github.com/ipfs/go-datastore" && (cf.Name() == "Get" || cf.Name() == "Has") {
+					storeCalls = append(storeCalls, call)
+				}
+			}
+		})
+		if len(cacheCalls) == 0 || len(storeCalls) == 0 {
+			continue
+		}
+		for _, b := range sf.Blocks {
+			ret, ok := b.Instrs[len(b.Instrs)-1].(*ssa.Return)
+			if !ok || len(ret.Results) != 2 {
+				continue
+			}
+			after := false
+			for _, sc := range storeCalls {
+				if ssaReaches(sc.Block(), b) {
+					after = true
+				}
+			}
+			if after {
+				continue
+			}
+			key := r.Key("R-C20.6", fn, "cache-only-return", "")
+			errV := ret.Results[1]
+			if cst, isC := errV.(*ssa.Const); isC && cst.IsNil() {
+				// success from the cache alone: must be a positive answer
+				if bc, isB := ret.Results[0].(*ssa.Const); isB && bc.Value != nil && bc.Value.Kind() == constant.Bool && !constant.BoolVal(bc.Value) {
+					r.Violate("R-C20.6", key, ret.Pos(), "the keystore answers 'absent' from its cache without consulting the datastore: a key created meanwhile through another keystore over the same datastore is reported absent")
+				} else {
+					r.Hold("R-C20.6", key, ret.Pos(), true, "a return without datastore lookup is a positive cache hit")
+				}
+				continue
+			}
+			// error without datastore lookup: must be about the cached value (its slice contains the cache lookup)
+			about := false
+			bs := backSlice(errV, nil)
+			for _, cc := range cacheCalls {
+				if bs[cc] {
+					about = true
+				}
+			}
+			r.Check(about, "R-C20.6", key, ret.Pos(), "an error returned without datastore lookup is about the cached value itself (decoding it failed)",
+				"the keystore reports a key as missing from its cache alone, without consulting the datastore: another keystore instance may have created it")
+		}
+	}
+
 	// R-C20.2
 	ck := p.Func("keystore", "Keystore", "CreateKey")
 	putErr := map[types.Object]bool{}
